@@ -26,6 +26,10 @@ func (eng *Engine) checkLockset(fc *FnCtx, fr *Frame, fn *ssa.Function, spec *Fu
 	if field == "" || len(fn.Params) == 0 || len(fn.Blocks) == 0 {
 		return
 	}
+	if locksetIsCounter(fn, field) {
+		eng.checkLocksetCounter(fc, fr, fn, spec) // ext_lockset_counter.go: the field is a counter object with an embedded mutex
+		return
+	}
 	recv := fn.Params[0]
 	isField := func(v ssa.Value) bool {
 		// *(&recv.field)
